@@ -97,6 +97,12 @@ class PausingFactory(RecFactory):
         orig = p.dataReceived
 
         def dataReceived(data):
+            # delivery-level check: data must not reach an application whose pause (asked for in an earlier
+            # scheduler step, i.e. not inside the chunk that is being dispatched right now) is still outstanding
+            if drv is not None and p in drv.inpaused and drv.inpaused[p] is not True and drv.inpaused[p] < drv.world.step:
+                m_ = drv.dp.manager(drv.side_of(p))
+                same_conn = m_ is not None and m_._connection is not None and id(m_._connection) == drv.pause_conn.get(p)
+                drv.data_while_paused.append((p.name, drv.inpaused[p], drv.world.step, len(data), same_conn))
             orig(data)
             if drv is not None and not drv.stop and drv.budget["inbound"] > 0 and drv.rng.random() < drv.pause_prob:
                 drv.budget["inbound"] -= 1
@@ -104,7 +110,8 @@ class PausingFactory(RecFactory):
                 drv.pauses_in_data += 1
                 try:
                     p.transport.pauseProducing()
-                    drv.inpaused[p] = True
+                    drv.inpaused.setdefault(p, drv.world.step)
+                    drv.note_pause_conn(p)
                 except Exception as e:
                     drv.api_errors.append(("transport.pauseProducing", p.name, type(e).__name__, repr(e)[:160]))
         p.dataReceived = dataReceived
@@ -132,11 +139,18 @@ class Driver:
                        "inbound": rng.randint(0, 12), "ticks": 120, "close_with": rng.choice([0, 0, 1, 2, 5])}
         self.inbound_calls = 0
         self.stop = False
+        self.data_while_paused = []
+        self.pause_conn = {}        # proto -> id of the L2 connection in use when the pause was asked for
         self.pause_prob = 0.08
         self.send_and_close = 0
 
     def side_of(self, proto):
         return proto.name[0]
+
+    def note_pause_conn(self, p):
+        m = self.dp.manager(self.side_of(p))
+        if p not in self.pause_conn:
+            self.pause_conn[p] = id(m._connection) if (m is not None and m._connection is not None) else None
 
     def outbound_of(self, proto):
         m = self.dp.manager(self.side_of(proto))
@@ -278,13 +292,16 @@ class Driver:
                     try:
                         if what == "pause":
                             p.transport.pauseProducing()
-                            self.inpaused[p] = True
+                            self.inpaused.setdefault(p, self.world.step)
+                            self.note_pause_conn(p)
                         elif what == "resume":
                             p.transport.resumeProducing()
                             self.inpaused.pop(p, None)
+                            self.pause_conn.pop(p, None)
                         else:
                             p.transport.stopProducing()
                             self.inpaused.pop(p, None)
+                            self.pause_conn.pop(p, None)
                     except Exception as e:
                         self.api_errors.append(("transport.%sProducing" % what, p.name, type(e).__name__, repr(e)[:160]))
                 acts.append((("app", side, "inbound"), inb))
@@ -429,6 +446,15 @@ def run_case(spec):
         viol.append({"key": "C15/unfair-turns", "msg": fairness, "witness": wit()})
     if starved:
         viol.append({"key": "C15/pull-producer-starved", "msg": starved, "witness": wit()})
+    seen_k = set()
+    for (name, ps, st, n, same_conn) in drv.data_while_paused:
+        # one mechanism is keyed on its own: records that a REPLACEMENT connection had parked between the Leader's KCM
+        # and its selection are dispatched before Inbound gets to pause that connection
+        k = "C15/data-delivered-to-paused-subchannel/" + ("same-connection" if same_conn else "parked-records-of-replacement-connection")
+        if k not in seen_k:
+            seen_k.add(k)
+            viol.append({"key": k, "msg": "%s asked for a pause at step %d and was handed %d bytes at step %d (%d such deliveries in this case)" % (
+                name, ps, n, st, len(drv.data_while_paused)), "witness": wit()})
     for (name, what, step, at) in drv.late_signals[:1]:
         viol.append({"key": "C15/signal-after-unregister/" + what, "msg": "producer on %s got %s at step %d, unregistered at %d" % (name, what, step, at), "witness": wit()})
     for (name, step) in drv.pull_while_paused[:1]:
